@@ -337,6 +337,33 @@ Section RS.
       (map (fun sh => match sh with Some l => l | None => [] end) shs).
 End RS.
 
+(* ---------- closed form of one byte of a data shard file ---------- *)
+(* byte o of .ec<i> (i < 10): inside the R large rows it is byte (o mod L) of block i of
+   large row o/L, behind them byte ((o-R*L) mod S) of block i of small row (o-R*L)/S;
+   positions beyond the end of the .dat were zero filled by encodeDataOneBatch.
+   Proved equal to [znth (data_shard dat L S buf D i) o] in proof/ECSpecProofs.v
+   (shard_byte_correct); the check uses it where the shard files are too big to be
+   built as lists (production block sizes). *)
+Definition shard_byte (dat : Z -> byte) (L S D i o : Z) : byte :=
+  let R := n_large_rows L D in
+  let p := if o <? R * L
+           then Z.quot o L * (L * 10) + i * L + Z.rem o L
+           else R * (L * 10) + Z.quot (o - R * L) S * (S * 10) + i * S + Z.rem (o - R * L) S in
+  if p <? D then dat p else 0%N.
+
+(* the shard file length generateEcFiles produces: R large blocks + s small blocks *)
+Definition shard_len (L S D : Z) : Z :=
+  if D <=? 0 then 0
+  else let R := n_large_rows L D in
+       R * L + ((D - R * (L * 10) + S * 10 - 1) / (S * 10)) * S.
+
+(* a .dat content that is a closed-form function of the position (no sequential state),
+   shared with the Go harness (mixByte) for volumes too big to be regenerated as a list *)
+Definition mix_byte (seed p : Z) : byte :=
+  let x := ((p + seed) * 1103515245 + 12345) mod 2147483648 in
+  let y := (x * x / 256 + x + p / 4096) mod 2147483648 in
+  Z.to_N ((y / 4096) mod 256).
+
 (* ---------- content generator shared with the Go harness ---------- *)
 (* x' = (x*1103515245 + 12345) mod 2^31 ; byte = (x' / 2^16) mod 256 *)
 Fixpoint lcg_bytes (n : nat) (x : Z) : list byte :=
